@@ -300,7 +300,8 @@ def run(args):
     stop = False
     rounds = 0
     fam_per_round = 12
-    while rep.elapsed() < budget and not stop:
+    t_start = time.time()
+    while (rounds == 0 or time.time() - t_start < budget) and not stop:
         rounds += 1
         fams = [gen_family(rng, hs, args.tier) for _ in range(fam_per_round)]
         jobs, owner = [], []
